@@ -39,6 +39,44 @@ def h_ctor(ctx):
     ctx.check('ctor/opened', elf.elfclass in (32, 64))
 
 
+# ------------------------------------------------------------------ H19.3 the other way to open a file
+def h_load_from_path(ctx):
+    """ELFFile.load_from_path on a file holding the first `cut` bytes of a seed (ground instances: the bytes come from a real file, so
+    nothing is symbolic here; the stream is whatever kind of object the library chooses to open)"""
+    import os
+    import tempfile
+    cfg = ctx.cfg
+    EF = ctx.lib('elf.elffile')
+    EXC = ctx.lib('common.exceptions')
+    data, where = _seed(cfg['elfclass'], cfg['little'])
+    cut = cfg['cut']
+    d = tempfile.mkdtemp(prefix='symx-c19-')
+    path = os.path.join(d, 'f.elf')
+    elf = None
+    try:
+        with open(path, 'wb') as f:
+            f.write(bytes(data[:cut] if cut is not None else data))
+        try:
+            elf = EF.ELFFile.load_from_path(path)
+        except EXC.ELFError:
+            ctx.outcome('ELFError')
+            ctx.check('load_from_path/raises-only-ELFError', True)
+            return
+        ctx.outcome('opened')
+        ctx.check('load_from_path/opened', elf.elfclass == cfg['elfclass'])
+        steps = _battery(ctx, elf)
+        ctx.check('load_from_path/battery-terminates', len(steps) > 0)
+    finally:
+        try:
+            if elf is not None:
+                elf.close()
+        except Exception:
+            pass
+        for fn in os.listdir(d):
+            os.unlink(os.path.join(d, fn))
+        os.rmdir(d)
+
+
 # ------------------------------------------------------------------ H19.2 termination of the enumeration battery
 def _seed(cls, little, needed=0, stripped=False):
     """small well-formed shared object with sections, segments, symbols, dynamic table, notes and both hash tables"""
@@ -327,6 +365,10 @@ HARNESSES = [
     H('h19_1_ctor', h_ctor, _ctor_instances, decoy=-1, expect=('ELFError', 'opened'),
       desc='ELFFile(stream) on images whose EVERY byte is symbolic (n = 0..6 fully free; n up to header + one table entry with only magic/class/data pinned): every path of the constructor ends by '
            'returning or by an exception that is an ELFError; the stream model raises ValueError / OverflowError on absurd seeks like io.BytesIO does'),
+    H('h19_3_load_from_path', h_load_from_path,
+      lambda tier: [dict(elfclass=c, little=l, cut=k) for c, l in ((64, True), (32, False)) for k in (0, 1, 3, 4, 5, 6, 15, 16, 17, 23, 24, 51, 52, 53, 63, 64, 65, 120, 500, None)],
+      expect=('ELFError', 'opened'),
+      desc='ELFFile.load_from_path on files holding a prefix of the seed (empty file included): ELFError or an object on which the battery terminates (ground instances)'),
     H('h19_2_battery', h_battery, _battery_instances, decoy=-1, expect=('terminated', 'ctor-ELFError'),
       desc='seed shared objects (sections, segments, symbols, dynamic table, notes, SysV and GNU hash) with one or two fields replaced by UNCONSTRAINED symbolic values (every count, size, offset, '
            'link, entry size, type of the file header, section / program headers, dynamic entries, hash and note words) or truncated at every table boundary: the enumeration battery of the '
